@@ -144,7 +144,7 @@ class Builder:
         self.domain = {(e["fn"], e["guard"]): e["value"] for e in json.load(open(os.path.join(VERIF, "specs", "domain.json")))["entries"] if e["dialect"] == dialect}
         self.domain_used = set()
 
-    def fn_fragment(self, fname, sink, s, e, top=False, bind=None, excl=None, cvar=None, clos=None):
+    def fn_fragment(self, fname, sink, s, e, top=False, bind=None, excl=None, cvar=None, clos=None, fixed=None):
         # a generic helper that is handed a closure may be entered again from inside that closure with another closure
         # (`write_list(rows, |row| write_list(row, |cell| ..))`): that is nesting, not recursion
         ckey = tuple(sorted((k_, id(v_[0]) if isinstance(v_, tuple) else id(v_)) for k_, v_ in (clos or {}).items()))
@@ -160,7 +160,7 @@ class Builder:
         saved = (self.fixed, self.bind, self.assigned, self.excl, self.cvar, self.clos, self.pending)
         self.clos = dict(clos or {})
         self.pending = {}
-        self.fixed, self.bind = {}, dict(bind or {})
+        self.fixed, self.bind = dict(fixed or {}), dict(bind or {})
         self.excl = dict(excl or {})
         self.cvar = dict(cvar or {})
         self.assigned = {H.place(n["l"]) for n in walk(t.body) if n.get("k") in ("assign", "assignop") and n.get("l") is not None}
@@ -589,13 +589,45 @@ class Builder:
             return k2 is not None and k2[0] == key
         return False
 
+    def call_some_guards(self, x):
+        """keys "some:ARG.field" for the two-way `let Some(..) = PARAM.field` tests at the top level of a callee that is handed
+        the local ARG as PARAM"""
+        if x[0] != "call" or not isinstance(x[2], dict):
+            return []
+        try:
+            target = self.linker.resolve(x[1], x[2])
+            cs = self.linker.callee_sink(target, x[2]) if target is not None else None
+            if cs is None:
+                return []
+            tt = T.fn_tir(self.f, target)
+            t, S = self.linker.body(target, cs, keep_sets=True)
+            S = stmt.sepify(sepchain(S), strict=True)
+        except Exception:
+            return []
+        out = []
+        items = list(S[1]) if S[0] == "seq" else [S]
+        flat = []
+        for y in items:
+            flat += list(y[1]) if y[0] == "seq" else [y]
+        for y in flat:
+            sg = self.some_guard(y)
+            if not sg:
+                continue
+            place = sg[len("some:"):]
+            root = place.split(".")[0]
+            for i, an in enumerate(x[2].get("arg_nodes") or []):
+                v = H.peel_ref(an) if isinstance(an, dict) else None
+                if isinstance(v, dict) and v.get("k") == "local" and i < len(tt.params) and tt.params[i][0] == root and "." in place:
+                    out.append("some:" + v["name"] + place[len(root):])
+        return out
+
     def some_guard(self, x):
         """key "some:PLACE" of a two-way `if let Some(..) = PLACE`"""
         if x[0] != "alt" or len(x[1]) != 2:
             return None
         for g, b in x[1]:
             ge = g.get("e")
-            if g.get("taken") is True and isinstance(ge, dict) and ge.get("k") == "let":
+            if g.get("taken") is True and isinstance(ge, dict) and (ge.get("k") == "let" or (ge.get("k") == "stmt_let" and ge.get("els") is not None)):
                 pt = ge.get("pat") or {}
                 if (pt.get("path") or {}).get("def") == "core::option::Option::Some":
                     pl = H.place(ge.get("init"))
@@ -672,6 +704,13 @@ class Builder:
                     del self.iter_state[nx]
                 return
             sg = self.some_guard(x)
+            if sg is None:
+                # the same test made inside a helper that is handed the struct (`self.write_type_clause(column_def, sql)` starting
+                # with `let Some(t) = &column_def.types else { return }`)
+                for cg in self.call_some_guards(x):
+                    if cg not in self.fixed and any(self.fold_depends(y, cg, fname) for y in items[i + 1:]):
+                        sg = cg
+                        break
             if sg is not None and sg not in self.fixed and any(self.fold_depends(y, sg, fname) for y in items[i + 1:]):
                 for val in (True, False):
                     self.fixed[sg] = val
@@ -1145,7 +1184,15 @@ class Builder:
                 j = int(j)
                 if isinstance(cn, dict) and cn.get("sp") in self.pending and j < len(tt.params) and tt.params[j][0]:
                     clos[tt.params[j][0]] = self.pending[cn["sp"]]
-            self.fn_fragment(target, cs, s, e, bind=bind, excl=excl, cvar=cvar, clos=clos)
+            # what is already decided about `Some` / `None` of a field of an argument holds for the parameter
+            fixed = {}
+            for i, an in enumerate(S[2].get("arg_nodes") or []):
+                v = H.peel_ref(an) if isinstance(an, dict) else None
+                if isinstance(v, dict) and v.get("k") == "local" and i < len(tt.params) and tt.params[i][0]:
+                    for fk, fv in self.fixed.items():
+                        if isinstance(fk, str) and fk.startswith("some:" + v["name"] + "."):
+                            fixed["some:" + tt.params[i][0] + fk[len("some:" + v["name"]):]] = fv
+            self.fn_fragment(target, cs, s, e, bind=bind, excl=excl, cvar=cvar, clos=clos, fixed=fixed)
         elif k == "ctl":
             if S[1] == "ret":
                 a.add_eps(s, fn_end)
